@@ -161,6 +161,8 @@ struct Stats
     uint64_t guarded{};       // op steered away from a listed known finding
     uint64_t checks{};        // oracle evaluations
     bool nontrivial{};        // set by the runner when the case meets the property's non-triviality rule
+    uint64_t last_op_allocs{};  // C17: allocations performed by the last (target) op in the counting run
+    bool last_op_threw{};       // C17: the injected failure surfaced as std::bad_alloc
     uint64_t kind_hist[K_COUNT_]{};
     std::map<std::string, uint64_t> labels;
     void label(const char* l) { ++labels[l]; }
@@ -203,6 +205,9 @@ enum Guards : unsigned
 };
 
 ConfigEntry& the_config();  // defined by the generated configuration TU
+
+// C17: 0 = counting run (no fault); k > 0 = the k-th allocation of the last op throws std::bad_alloc
+inline int g_fault_k = 0;
 
 [[noreturn]] inline void die(const std::string& m)
 {
